@@ -11,6 +11,8 @@ Record gcase := mkgcase {
 }.
 
 Record case := mkcase {
+  c_streams_agree : bool;                     (* both rejected with the same status: did they write to the same stream *)
+  c_parents_intact : bool;                    (* the parent parsers' actions/defaults are what they were before the child existed *)
   c_args : bool;                              (* parse_args (leftovers are an error) instead of parse_known_args *)
   c_pre : option err;                         (* how declaring / set-up ended when it did not succeed *)
   c_parents : list action;                    (* the parents' actions and defaults *)
@@ -62,6 +64,7 @@ Definition model_ok (c : case) : bool :=
                          && gset_eqb (ap_group g.(gc_parser) g.(gc_over)) g.(gc_twin)) c.(c_groups).
 
 Definition spec_ok (c : case) : bool :=
+  c.(c_streams_agree) && c.(c_parents_intact) &&
   spec_run (map a_dest (filter (fun a => negb (akind_eqb (a_kind a) KRouted)) (c.(c_parents) ++ c.(c_plain)))) c.(c_gen_obs) (top_dests c.(c_forest)) (sup_top_dests c.(c_forest)) (has_subgroups c.(c_forest))
            c.(c_oracle) c.(c_sp)
   && forallb (fun g => gset_eqb g.(gc_sp) g.(gc_twin)) c.(c_groups).
